@@ -144,9 +144,17 @@ func globalArrayLiteral(p *Prog, name string) ([]int64, token.Pos, bool) {
 }
 
 func runC04(c *Ctx) {
+	// clause shared with C03: the final frame is decompressed by its own flag, not the stream's declaration
+	defer c.ImportRules("C03", "C03.12")
+	defer runC04MessageDecodeKeepsCode(c)
+	defer runC04DetailAlphabet(c)
+	// clause shared with C05: announced trailer names are recorded in canonical form
+	defer c.ImportRules("C05", "C05.5")
 	p := c.P
 	// clauses this property shares with others (see DESIGN.md section 6a)
 	defer c.ImportRules("C03", "C03.4", "C03.9")
+	// clause shared with C20: the resolver that renders error details falls back to the global registry
+	defer c.ImportRules("C20", "C20.10")
 
 	c.Rule("C04.1", "every non-constant index into a fixed-size lookup table is proven in range", 3)
 	checkTableLookups(c, "C04.1")
@@ -1025,5 +1033,147 @@ func runC04FallbackAfterParse(c *Ctx) {
 	}
 	if n == 0 {
 		c.Bad("C04.10", "server-protocols", "fallback-only-after-parse", token.NoPos, "no error-body unmarshaller with an HTTP-status fallback found: shape changed")
+	}
+}
+
+// runC04MessageDecodeKeepsCode: C04.11 (defect D68).  The gRPC specification on grpc-message:
+// "When decoding invalid values, implementations MUST NOT error or throw away the message. At
+// worst, the implementation can abort decoding the status message altogether such that the user
+// would receive the raw percent-encoded form."  So where the trailer interpreter percent-decodes
+// the value of Grpc-Message, the decoder's failure edge must not manufacture an error of its own:
+// in the blocks that know the decode error is non-nil no connect error is built with a constant
+// code (that would replace the backend's code by "internal" because of one stray '%').
+func runC04MessageDecodeKeepsCode(c *Ctx) {
+	p := c.P
+	c.Rule("C04.11", "a grpc-message that cannot be percent-decoded does not replace the backend's code", 1)
+	n := 0
+	for _, fn := range p.Funcs {
+		if !p.inScope(fn) {
+			continue
+		}
+		// the value of the Grpc-Message header/trailer
+		var msgVals []ssa.Value
+		for _, call := range Calls(fn) {
+			if !IsCallTo(call, "(net/http.Header).Get") {
+				continue
+			}
+			if k, ok := ConstString(call.Common().Args[1]); ok && strings.EqualFold(k, "Grpc-Message") {
+				if v := call.Value(); v != nil {
+					msgVals = append(msgVals, v)
+				}
+			}
+		}
+		if len(msgVals) == 0 {
+			continue
+		}
+		for _, call := range Calls(fn) {
+			sc := call.Common().StaticCallee()
+			if sc == nil || !p.inScope(sc) || len(call.Common().Args) != 1 || errorResultIndex(sc.Signature) != 1 {
+				continue
+			}
+			fromMsg := false
+			for _, o := range Origins(call.Common().Args[0]) {
+				for _, mv := range msgVals {
+					if o.V == mv {
+						fromMsg = true
+					}
+				}
+			}
+			if !fromMsg || call.Value() == nil {
+				continue
+			}
+			n++
+			// the error component
+			var errVal ssa.Value
+			for _, ref := range *call.Value().Referrers() {
+				if ex, ok := ref.(*ssa.Extract); ok && ex.Index == 1 {
+					errVal = ex
+				}
+			}
+			bad := token.NoPos
+			if errVal != nil {
+				for _, b := range fn.Blocks {
+					knows := false
+					for _, f := range FactsAt(b) {
+						if cmp, ok := f.AsCmp(); ok && cmp.Op == token.NEQ && IsNilConst(cmp.Y) && cmp.X == errVal {
+							knows = true
+						}
+					}
+					if !knows {
+						continue
+					}
+					for _, in := range b.Instrs {
+						ci, ok := in.(ssa.CallInstruction)
+						if !ok || !IsCallTo(ci, "connectrpc.com/connect.NewError", "connectrpc.com/connect.NewWireError") {
+							continue
+						}
+						if _, isK := ConstInt(ci.Common().Args[0]); isK {
+							bad = ci.Pos()
+						}
+					}
+				}
+			}
+			c.Check(bad == token.NoPos, "C04.11", FuncName(fn), "undecodable-message-keeps-code", call.Pos(),
+				"no error with a constant code is built where the percent-decoding of grpc-message failed",
+				"where the percent-decoding of grpc-message failed, an error with a constant code is built ("+p.Pos(bad)+"): one stray '%' in the backend's status message replaces the backend's code (gRPC: implementations MUST NOT error on an undecodable grpc-message; at worst the raw form is delivered)")
+		}
+	}
+	if n == 0 {
+		c.Bad("C04.11", "package", "undecodable-message-keeps-code", token.NoPos, "no percent-decoding of the Grpc-Message trailer found: shape changed")
+	}
+}
+
+// runC04DetailAlphabet: C04.12 (seed C04l).  In a Connect error (unary error body, end-of-stream
+// frame) each detail's bytes travel as base64 in the STANDARD alphabet, unpadded; clients decode
+// with exactly that (connect-go: RawStdEncoding, padding tolerated).  The same file also uses
+// the URL-safe alphabet - for the GET `message` parameter - so the two are one completion apart.
+// A wire-format table check like C04.5/C04.6: wherever a base64 encoding result is stored into
+// the value field of the wire form of an error detail, the encoder is base64.RawStdEncoding or
+// base64.StdEncoding.
+func runC04DetailAlphabet(c *Ctx) {
+	p := c.P
+	c.Rule("C04.12", "error detail bytes are base64 in the standard alphabet", 1)
+	n := 0
+	for _, fn := range p.Funcs {
+		if !p.inScope(fn) {
+			continue
+		}
+		ForEachInstr(fn, func(in ssa.Instruction) {
+			st, ok := in.(*ssa.Store)
+			if !ok {
+				return
+			}
+			fa, ok := st.Addr.(*ssa.FieldAddr)
+			if !ok {
+				return
+			}
+			owner := fa.X.Type()
+			if pt, isP := owner.(*types.Pointer); isP {
+				owner = pt.Elem()
+			}
+			nm, isN := owner.(*types.Named)
+			if !isN || !strings.Contains(strings.ToLower(N(nm.Obj())), "detail") || nm.Obj().Pkg() == nil || nm.Obj().Pkg().Path() != RootPath {
+				return
+			}
+			for _, o := range Origins(st.Val) {
+				call, isCall := o.V.(*ssa.Call)
+				if !isCall || !IsCallTo(call, "(*encoding/base64.Encoding).EncodeToString") {
+					continue
+				}
+				n++
+				enc := ""
+				for _, ro := range Origins(call.Call.Args[0]) {
+					if g, isG := globalOf(ro.V); isG {
+						enc = g.Name()
+					}
+				}
+				c.Check(enc == "RawStdEncoding" || enc == "StdEncoding", "C04.12", FuncName(fn), "detail-alphabet", call.Pos(),
+					"the detail bytes are encoded with base64."+enc,
+					"the bytes of an error detail are encoded with base64."+enc+" instead of the standard alphabet: a detail whose bytes contain a 6-bit group 62 or 63 comes out with '-' / '_' where clients expect '+' / '/', and cannot be decoded - code and message arrive, the details do not")
+			}
+		})
+	}
+	if n == 0 {
+		c.Bad("C04.12", "package", "detail-alphabet", token.NoPos, "no base64 encoding of an error detail's bytes found: shape changed")
 	}
 }
